@@ -175,6 +175,18 @@ func (h *HelloPingHandler) handlePingHelloRequest(w *mgr.WorkerCtx, f frame.Fram
 		return fmt.Errorf("unmarshal request: %w", err)
 	}
 
+	// Resolve concurrent key setups: If both routers send a hello ping at the
+	// same time, each would end up with the keys of its own request, which do
+	// not match. The router with the lower address keeps its own key setup,
+	// the other one abandons its own and answers the request.
+	ownState := h.getActive(f.SrcIP())
+	if ownState != nil && ownState.done.Load() {
+		ownState = nil
+	}
+	if ownState != nil && h.r.instance.Identity().IP.Compare(f.SrcIP()) < 0 {
+		return errors.New("concurrent hello ping: keeping own key setup")
+	}
+
 	// Do key exchange.
 	session := h.r.instance.State().GetSession(f.SrcIP())
 	if session == nil {
@@ -183,6 +195,10 @@ func (h *HelloPingHandler) handlePingHelloRequest(w *mgr.WorkerCtx, f frame.Fram
 	kxKey, kxType, err := session.Encryption().InitKeyServer(request.KeyExchange, request.KeyExchangeType)
 	if err != nil {
 		return fmt.Errorf("server key exchange: %w", err)
+	}
+	if ownState != nil && ownState.done.CompareAndSwap(false, true) {
+		// Abandon own key setup, keys are now set up by this request.
+		close(ownState.notify)
 	}
 	if request.MTU > 0 {
 		session.SetTunMTU(request.MTU)
